@@ -41,7 +41,11 @@ if [ "$NOSUITE" != "nosuite" ]; then
   still=""
   for p in $fails; do # one retry for the known flaky tests
     rel="./${p#perun.network/go-perun/}"
-    if ! (cd "$WT" && go test -vet=off -count=1 -timeout 25m "$rel" >/dev/null 2>&1); then still="$still $p"; fi
+    ok=0
+    for try in 1 2 3; do
+      if (cd "$WT" && go test -vet=off -count=1 -timeout 25m "$rel" >/dev/null 2>&1); then ok=1; break; fi
+    done
+    [ $ok = 1 ] || still="$still $p"
   done
   if [ -n "$still" ]; then say "REJECTED: the existing suite fails with the change:$still"; grep -E -m10 '^--- FAIL' "/tmp/seedrun/$TAG.suite.log" >>"$LOG"; rm -f "/tmp/seedrun/$TAG.suite.log"; exit 1; fi
   say "existing suite with the change: PASS (wire/net/libp2p needs the network and fails on the unchanged tree too${fails:+; passed on retry: $(echo $fails)})"
